@@ -133,7 +133,8 @@ def main(run):
     run.assumptions = [
         "GnuTLS's contract: gnutls_handshake returns success only if both ends presented the same key "
         "(hypothesis of the credential theorems; monitored on the credential matrix on every run)",
-        "TLS over TCP is not modelled: it is checked by an implementation-only oracle on real loopback sockets",
+        "TLS over TCP runs on real loopback sockets and the real clock (one thread, both contexts driven "
+        "alternately; the wait inside coap_send is serviced or made to time out through a link-time wrap)",
         "PSK only (no certificates); the GnuTLS version installed in the image",
         "application callbacks are table look-ups (identity -> key, hint -> identity/key, SNI -> hint/key)",
     ]
@@ -214,7 +215,9 @@ def main(run):
 
     # 2b. TLS over TCP: real loopback sockets, real GnuTLS, oracle on the implementation alone
     tdrv = vlib.build_driver("h_tls_tcp", ["h_tls_tcp.c"], extra=["-D_GNU_SOURCE"],
-                             wraps=["coap_socket_write", "gnutls_handshake"])
+                             wraps=["coap_socket_write", "gnutls_handshake", "gnutls_record_send",
+                                    "gnutls_record_recv", "coap_tls_read", "coap_pdu_parse_opt",
+                                    "coap_io_process_lkd"])
     tcases = gen_tls.gen_tcp_cases(tie.rng_for(run, "c19tcp"), run.tier)
     tlines = [gen_tls.tcp_line(c) for c in tcases]
     touts, tcr = vlib.run_lines_robust(tdrv, tlines, timeout=900)
@@ -233,8 +236,31 @@ def main(run):
             nt += 1
             if nt <= 3:
                 run.violation(b, "case: %s\nwhat: %s\ntrace:\n%s\n" % (ln, b, o.replace(" |", "\n|")), tag="tcp%d" % nt)
+    # tie: every TLS/TCP session trace must be a trace of the model Tls/GateTcp.v
+    tgt_lines, towner = [], []
+    for i, (c, o) in enumerate(zip(tcases, touts)):
+        if o.startswith("CRASH") or o.startswith("<not") or o.startswith("ERROR"):
+            continue
+        for nm, sx in gen_tls.tcp_sessions_of(o):
+            tgt_lines.append(sx.line())
+            towner.append((i, nm, sx))
+    tver = vlib.run_lines_robust(model, tgt_lines)[0] if tgt_lines else []
+    ntie = 0
+    for (i, nm, sx), v in zip(towner, tver):
+        what = None
+        if v != "ACCEPT":
+            what = "TLS/TCP session %s: the observed trace is not a trace of the model: %s" % (nm, v[:300])
+        elif sx.stray:
+            what = "TLS/TCP session %s: outputs outside any modelled event: %s" % (nm, sx.stray[:4])
+        if what:
+            ntie += 1
+            if ntie <= 2:
+                run.violation(what, "case: %s\nwhat: %s\ntrace:\n%s\n" % (tlines[i], what, touts[i].replace(" |", "\n|")),
+                              tag="tcptie%d" % ntie, no_input=True)
     run.cov["tcp_tls_cases"] = len(tcases)
     run.cov["tcp_tls_failures"] = nt
+    run.cov["tcp_tls_session_traces"] = len(tgt_lines)
+    run.cov["tcp_tls_tie_failures"] = ntie
 
     # 3. thorough: the same cases under ASan+UBSan (the DTLS path frees and re-creates TLS
     # contexts on every failure path); a sanitizer report is a broken tie, not a C19 verdict
